@@ -3,7 +3,7 @@ SPEC = dict(
     title='Constant curve value: request settles at one target, same for every algorithm',
     props_file='Props/C04.v', props_mod='Props.C04',
     proof_files=['Proofs/Rescale.v', 'Proofs/Ctrl.v', 'Proofs/CtrlC04.v', 'Drv/CtrlC04.v'],
-    tie_vo=['Proofs/LeafTie.vo'],
+    tie_vo=['Proofs/LeafTie.vo', 'Proofs/ConstsTie_basic.vo', 'Proofs/ConstsTie_clamp.vo', 'Proofs/ConstsTie_stall.vo', 'Proofs/ConstsTie_pid.vo'],
     drivers=[dict(name='ctrl', drv_mod='Drv.CtrlC04', drv_file='Drv/CtrlC04.v', shard=100,
                   args={'quick': ['n=500', 'pidlong=6'], 'thorough': ['n=10000', 'pidlong=40']}, timeout={'quick': 900, 'thorough': 6000})],
     rule='seeded histories of 1..40 control cycles with interleaved RPM polls, external interference and device faults on real '
